@@ -379,7 +379,9 @@ class Ctx:
         return r
 
     def sany(self, module):
-        cmd = ["java", "-cp", TLA_CP, "tla2sany.SANY", module + ".tla"]
+        jt = os.path.join(self.scratch, "jtmp")
+        os.makedirs(jt, exist_ok=True)
+        cmd = ["java", "-Djava.io.tmpdir=" + jt, "-cp", TLA_CP, "tla2sany.SANY", module + ".tla"]
         p = subprocess.run(cmd, cwd=self.specdir, capture_output=True, text=True, timeout=120)
         return p.returncode == 0 and "error" not in p.stdout.lower().replace("errors: 0", ""), p.stdout
 
